@@ -95,7 +95,8 @@ BASICS = ["int", "string", "bool", "float64", "byte", "rune", "uint", "error", "
           "int64", "uint8", "float32", "complex128", "uintptr", "int32"]
 KEYS = ["string", "int", "bool", "rune"]
 METHOD_NAMES = ["Get", "Set", "Do", "Run", "Close", "Put", "List", "One", "Two", "Find",
-                "Apply", "Send", "Recv", "Visit", "Len"]
+                "Apply", "Send", "Recv", "Visit", "Len", "Id", "Url", "ID", "Http", "Api", "Json", "Uuid",
+                "refresh", "lower", "get", "X", "Get2", "With_Underscore"]
 ADV_METHOD_NAMES = ["GetCalls", "ResetCalls", "ResetGetCalls", "Func"]
 PLAIN_NAMES = ["a", "b", "c", "ctx", "name", "key", "val", "x", "y", "in", "out", "req", "opts",
                "first_arg", "arg2", "Upper", "mixedCase", "x1", "_x"]
